@@ -250,6 +250,22 @@ CHECKS['C10'] = dict(
     ref='DESIGN.md section 7 C10',
 )
 
+CHECKS['C11'] = dict(
+    module='Query',
+    technique='TLA+ reference semantics (Naive) + TLC model checking of the placement-independence algebra + TLC as judge of recorded real query answers (trace validation), named deviations for known defects',
+    text="spec/Query.tla defines the reference: every accepted point is kept, its storage slot comes from the TimeAxis module, the points of one (series, field, storage slot) are combined by the field type in arrival order, TimeAxis!Plan gives the query range and interval, and the storage cells of the selected series inside one query slot are folded by the aggregate the (field type, function) pair stands for, one series per group. Next to it the module has the implementation shape: the same points spread over sources (write window and compressed buffer of a memory database, level-0/1 files, per shard and family) whose partial cells are merged; TLC checks exhaustively on a small universe (duplicate slots, slots beyond the 15-slot write window, two families, two series, flush / compaction / restart anywhere) that the intended design returns the reference for every supported (type, function) x group-by x interval, and that each named deviation of the code, switched on alone, breaks it. The real code is then driven end to end in one process (query.MetricDataSearch -> loopback transport -> leaf task processor -> tsdb.Engine with real memory databases and kv files): seeded histories of rows (five simple field types, histograms, field subsets, out-of-order and duplicate slots, day/month/year edges), flushes, compactions, restarts and queries, also queries running concurrently with a flush; the driver logs inputs and the raw result set, and TLC judges EVERY answer: planned range/interval, the set of series, the set of cells and each value must be the reference's. An answer the reference rejects is accepted only if a named, configuration-allowed deviation model reproduces it for the recorded placement (then it is printed as a known finding); anything else is a violation. A reference on inputs is the right level because the property quantifies over write sequences x placements x queries for which nobody wrote expected values.",
+    note="Trusted: TLC, the Json community module, TimeAxis (C13), the harness loopback (TaskManager / TransportManager / NodeChoose / server streams) and its bookkeeping of what was written; integral values (exact float aggregation); TZ=UTC, one 10 s stored interval. Claimed query shape only: bare fields and sum/min/max/last/first as allowed by IsFuncSupported, absolute ranges, group by tags and time(n s), =, !=, in, not in, like, and/or; rate, quantile, stddev, arithmetic, order by / having are not claimed. last/first over a group of several series admits any member series' value. Known deviations (order, partial, multi, window, emptyseries) are judged against their own models, not ignored; hide and likestar were repaired in /repo (4621912, f16367e) and are no longer allowed by spec/QueryTrace.cfg, so reverting those repairs fails the check; with the strict configuration no deviation is allowed.",
+    ref='DESIGN.md section 7 C11',
+)
+
+CHECKS['C12'] = dict(
+    module='Query',
+    technique="TLA+ reference semantics + TLC model checking of multi-shard placement and of the root's response handling under every delivery schedule + TLC as judge of real answers recorded under enumerated layouts and gated delivery orders",
+    text="The reference of C11 does not mention shards, nodes or delivery, so judging every layout's answer against it is the layout-independence relation. Model side: TLC checks placement independence with the series routed to two shards (sources of several shards merged by the function's aggregate) and explores the root's response handling (expected results, tolerated not-founds, error slot overwritten by the root's own pipeline completion) as a state machine over every assignment of answer kinds (data / empty / not-found) to three leaves, every delivery order and every position of the root's completion: a leaf without matching data never turns a non-empty answer into an error or an empty answer and every data answer is merged; with a single tolerated not-found instead of one per target the invariant fails. Code side: one real engine with 1..3 shards, rows routed by the real BrokerBatchRows shard/family iterators (jump hash) and written in wire form; per query every partition of the shards over up to three real leaf task processors (also a leaf without shards), 0..2 real intermediate task processors planned as the broker plans them, every delivery order of the responses to the root and every split of them before/after the root's own completion (a gate in the loopback transport delivers responses one at a time), plus an unscheduled concurrent run; TLC judges each of the several hundred answers against the reference. The known hang with >= 2 compute nodes is accepted only for exactly those layouts and only as a timeout.",
+    note="Trusted: as C11, plus the harness' emulation of the topology (root broker, compute brokers, storage leaves over one shared engine) and its delivery gate; the position of the root's completion is controlled by delivering inside / after its last SendRequest (the root pipeline is synchronous). A batch holds each series at most once (the broker's sort by shard is not stable). Sampled, not exhaustive, when a query has more layouts than the quick-tier budget (every leaf/compute shape is kept).",
+    ref='DESIGN.md section 7 C12',
+)
+
 NOT_YET = {
 }
 
